@@ -578,4 +578,44 @@ theorem length_simplify_odd (vals : List α) (hodd : vals.length % 2 = 1) : (sim
   rw [this]; exact h1
 end Shape
 
+section FlattenCount
+variable {α : Type} [DecidableEq α]
+
+theorem count_cons (y : α) (t : List α) (v : α) : count (y :: t) v = ind y v - count t v := by
+  rw [count_eq_scount, count_eq_scount, scount, scount_neg]; omega
+
+theorem scount_append (l m : List α) (s : Int) (v : α) :
+    scount (l ++ m) s v = scount l s v + scount m (if l.length % 2 = 0 then s else -s) v := by
+  induction l generalizing s with
+  | nil => simp [scount]
+  | cons a l ih =>
+    simp only [List.cons_append, scount, ih, List.length_cons]
+    have : (if (l.length + 1) % 2 = 0 then s else -s) = (if l.length % 2 = 0 then -s else - -s) := by
+      split <;> split <;> first | rfl | omega | simp
+    rw [this]; omega
+
+theorem count_append_odd (l m : List α) (h : l.length % 2 = 1) (v : α) :
+    count (l ++ m) v = count l v - count m v := by
+  rw [count_eq_scount, scount_append, if_neg (by omega), scount_neg, ← count_eq_scount, ← count_eq_scount]; omega
+
+theorem count_negateTerm (b : List α) (v : α) (h : b.length % 2 = 1) : count (negateTerm b) v = count b v := by
+  match b, h with
+  | [x], _ => simp [negateTerm, swapPairs]
+  | [_, _], h => simp at h
+  | [], h => simp at h
+  | x :: r0 :: a1 :: rest, h =>
+    have ih := count_negateTerm (x :: rest) v (by simp at h ⊢; omega)
+    have e : negateTerm (x :: r0 :: a1 :: rest) = a1 :: r0 :: negateTerm (x :: rest) := by
+      simp [negateTerm, swapPairs]
+    rw [e, count, ih, count, count_cons x rest, count_cons a1 rest]; omega
+termination_by b.length
+
+/-- the flattened three-way merge has the signed counts `left − base + right` -/
+theorem count_flatten_three (l b r : List α) (hl : l.length % 2 = 1) (hb : b.length % 2 = 1) (v : α) :
+    count (flatten [l, b, r]) v = count l v - count b v + count r v := by
+  rw [flatten_three, List.append_assoc, count_append_odd l _ hl,
+    count_append_odd _ r (by rw [length_negateTerm]; exact hb), count_negateTerm b v hb]
+  omega
+end FlattenCount
+
 end JjModel.Refs
